@@ -1,7 +1,105 @@
-/- placeholder driver for C09: replaced when the model is built -/
-import AcnModel.Wire
-open Lean Acn.Wire
+/-
+  Driver for C09.  One request may carry two parts:
 
-def handle (_ : Json) : Except String Json := throw "driver for C09 not built yet"
+  "sim": a whole-simulation scenario in the format of `AcnModel/WireSim.lean` whose scheduler fails
+         at the chosen period, plus "resume": the scheduler that continues from the failed state
+         (same semantics as `Drivers/C01.lean`); answer: the resumed result with "first" = the
+         failed run.
+  "reg": {"root": id, "store": [[id, class, [[attr, <val>], …]], …]} — an object store as written by
+         `to_json` (listed in ANY order); <val> = {"s": text} | {"r": id} | {"l": [{"s": text} | {"r": id}, …]}.
+         answer: the order in which `dump` enters the objects, whether `load (dump st)` reproduces
+         it, key-uniqueness, the addresses of the loaded objects, and the size of the memo-less walk.
+-/
+import AcnModel.WireSim
+import AcnModel.Registry
+open Lean Acn Acn.Wire Acn.EventCore Acn.Sim
+
+namespace Acn.RegWire
+open Acn.Registry
+
+def parseItem (j : Json) : Except String Item :=
+  match j.getObjVal? "r" with
+  | .ok v => do pure (.ref (← v.getNat?))
+  | .error _ => do pure (.scalar (← getStr j "s"))
+
+def parseVal (j : Json) : Except String Val :=
+  match j.getObjVal? "l" with
+  | .ok v => do pure (.list (← (← asArr v).mapM parseItem))
+  | .error _ =>
+    match j.getObjVal? "r" with
+    | .ok v => do pure (.ref (← v.getNat?))
+    | .error _ => do pure (.scalar (← getStr j "s"))
+
+def parseObj (j : Json) : Except String (Id × Obj) := do
+  match ← asArr j with
+  | [i, c, as] =>
+    let attrs ← (← asArr as).mapM fun a => do
+      match ← asArr a with
+      | [k, v] => pure ((← k.getStr?), (← parseVal v))
+      | _ => throw "attribute must be [name, value]"
+    pure ((← i.getNat?), { cls := ← c.getStr?, attrs })
+  | _ => throw "object must be [id, class, attrs]"
+
+def jErr : Registry.Err → Json
+  | .missing i => Json.mkObj [("missing", jN i)]
+  | .fuel => jS "fuel"
+
+def jItem : Item → Json
+  | .scalar s => Json.mkObj [("s", jS s)]
+  | .ref i => Json.mkObj [("r", jN i)]
+
+def jVal : Val → Json
+  | .scalar s => Json.mkObj [("s", jS s)]
+  | .ref i => Json.mkObj [("r", jN i)]
+  | .list l => Json.mkObj [("l", jList jItem l)]
+
+def jObj (p : Id × Obj) : Json :=
+  Json.arr #[jN p.1, jS p.2.cls, jList (fun a => Json.arr #[jS a.1, jVal a.2]) p.2.attrs]
+
+def handleReg (j : Json) : Except String Json := do
+  let root ← getNat j "root"
+  let st ← (← getArr j "store").mapM parseObj
+  match dump st root with
+  | .error e => pure (Json.mkObj [("dump", jErr e)])
+  | .ok ctx =>
+    let ld := load ctx root
+    let nm := visitNoMemo st (st.length + 1) root []
+    pure (Json.mkObj [
+      ("dump", jS "ok"),
+      ("order", jList jN ctx.keys),
+      ("ctx", jList jObj ctx),
+      ("nodup", jB (decide ctx.keys.Nodup)),
+      ("load", match ld with | .ok _ => jS "ok" | .error e => jErr e),
+      ("load_eq_dump", jB (match ld with | .ok l => decide (l = ctx) | .error _ => false)),
+      ("addr", match ld with
+        | .ok l => jList (fun i => Json.arr #[jN i, jOpt jN (addr l i)]) ctx.keys
+        | .error _ => Json.null),
+      ("nomemo_len", match nm with | .ok l => jN l.length | .error _ => Json.null)])
+
+end Acn.RegWire
+
+def handleSim (j : Json) : Except String Json := do
+  let cfg ← parseSimCfg j
+  let sched ← parseSched (← j.getObjVal? "sched")
+  let fuel := fuelFor cfg.core
+  let r := Sim.run cfg sched fuel (Sim.init cfg)
+  match j.getObjVal? "resume" with
+  | .error _ => pure (jResult cfg r)
+  | .ok rj =>
+    match r.2 with
+    | none => pure (jResult cfg r)
+    | some _ =>
+      let sched2 ← parseSched rj
+      let r2 := Sim.run cfg sched2 fuel r.1
+      pure ((jResult cfg r2).setObjVal! "first" (jResult cfg r))
+
+def handle (j : Json) : Except String Json := do
+  let s ← match j.getObjVal? "sim" with
+    | .ok v => if v.isNull then pure Json.null else handleSim v
+    | .error _ => pure Json.null
+  let r ← match j.getObjVal? "reg" with
+    | .ok v => if v.isNull then pure Json.null else Acn.RegWire.handleReg v
+    | .error _ => pure Json.null
+  pure (Json.mkObj [("sim", s), ("reg", r)])
 
 def main : IO Unit := runDriver handle
